@@ -29,7 +29,7 @@ If(c, name) == IF c THEN {name} ELSE {}
 
 VerdictOf ==
   [ C14 |-> {"contexts_differ", "lost_failure", "failed_not_visible", "cleanup_lost", "cleanup_twice", "data_race", "context_dead_during_call", "hangs"},
-    C15 |-> {"data_race", "draws_differ_when_shared", "shared_check_crashed"} ]
+    C15 |-> {"data_race", "draws_differ_when_shared", "shared_check_crashed", "value_modified_after_draw"} ]
 Verdicts == IF Property = "ALL" THEN UNION { VerdictOf[p] : p \in DOMAIN VerdictOf } ELSE VerdictOf[Property]
 
 Init == /\ l = 1 /\ scen = [id |-> ""] /\ viol = {} /\ ctxs = {} /\ regs = {} /\ runs = <<>> /\ sig = FALSE /\ gfailed = {} /\ open = FALSE
@@ -81,7 +81,8 @@ Race == /\ Is("race") /\ Adv
 \* (the shared draws come first -- process-wide caches must be first used concurrently -- the reference afterwards)
 Shared == /\ Is("shared") /\ Adv
           /\ solo' = [x \in DOMAIN solo \cup {Ev.key} |-> IF x = Ev.key THEN [d |-> Ev.draws, c |-> Ev.crashed] ELSE solo[x]]
-          /\ viol' = viol
+          \* (the value was looked at again after all other draws: a drawn value belongs to the check that drew it)
+          /\ viol' = viol \cup If("stable" \in DOMAIN Ev /\ ~Ev.stable, "value_modified_after_draw")
           /\ UNCHANGED <<scen, ctxs, regs, runs, sig, gfailed, open>>
 \* (a check that crashes in the same way when it runs alone -- e.g. a filter that finds nothing -- is the generator's own behaviour)
 Solo == /\ Is("solo") /\ Adv
